@@ -25,6 +25,9 @@ theorem mLen_patLen (m : Nat) (h : m ≤ 4) : mLen m = patLen m := by
 
 theorem words_no_close : ∀ w ∈ W1.words, ∀ x ∈ w, x ≠ 125 := by decide
 
+/-- only `/loop>` and `/if>` contain a `>` -/
+theorem words_no_gt : ∀ wid, wid < 11 → wid ≠ 7 → wid ≠ 9 → ∀ x ∈ W1.words[wid]?.getD [], x ≠ 62 := by decide
+
 theorem matchMiddle_exact (c : List Nat) (wend : Nat) (hw : wend < c.length) :
     ∀ (ws : List Nat) (off : Nat), matchMiddle c wend ws off = .ok wend →
       ∀ i, off ≤ i → i < wend → ∃ x, c[i]? = some x ∧ x ∈ ws := by
@@ -56,7 +59,8 @@ theorem tryWords_facts (c : List Nat) (start : Nat) (hs : start + 8 < 4294967296
     ∀ (ids : List Nat) (o m : Nat), (∀ i ∈ ids, W1.wordLengths[i]?.getD 0 ≤ 5) →
       tryWords c start ids = .ok (some (o, m)) →
       m ≠ 0 ∧ m - 1 ∈ ids ∧ o = start + W1.wordLengths[m - 1]?.getD 0 + 1 ∧ o ≤ c.length ∧
-      ∀ i, start ≤ i → i < o → ∃ x, c[i]? = some x ∧ x ≠ 125 := by
+      ∀ i, start ≤ i → i < o → ∃ x, c[i]? = some x ∧ x ≠ 125 ∧
+        (m - 1 < 11 → m - 1 ≠ 7 → m - 1 ≠ 9 → x ≠ 62) := by
   intro ids
   induction ids with
   | nil => intro o m _ h; simp [tryWords] at h
@@ -90,16 +94,23 @@ theorem tryWords_facts (c : List Nat) (start : Nat) (hs : start + 8 < 4294967296
               cases hq : W1.words[wid]? with
               | none => simp
               | some w => simp only [Option.getD_some]; exact words_no_close w (List.mem_of_getElem? hq)
+            have hw1 : wid + 1 - 1 = wid := by omega
             by_cases hiw : i < start + W1.wordLengths[wid]?.getD 0
             · obtain ⟨x, hx, hm⟩ := matchMiddle_exact c _ hw _ _ hmm i hi1 hiw
-              exact ⟨x, hx, hword x (List.mem_of_mem_take hm)⟩
+              refine ⟨x, hx, hword x (List.mem_of_mem_take hm), ?_⟩
+              rw [hw1]
+              intro g1 g2 g3
+              exact words_no_gt wid g1 g2 g3 x (List.mem_of_mem_take hm)
             · have hie : i = start + W1.wordLengths[wid]?.getD 0 := by omega
               subst hie
               refine ⟨_, List.getElem?_eq_getElem hw, ?_⟩
-              rw [hlast]
+              rw [hlast, hw1]
               cases hq : (W1.words[wid]?.getD [])[W1.wordLengths[wid]?.getD 0]? with
               | none => simp [hq]
-              | some y => simp only [hq, Option.getD_some]; exact hword y (List.mem_of_getElem? hq)
+              | some y =>
+                simp only [hq, Option.getD_some]
+                exact ⟨hword y (List.mem_of_getElem? hq),
+                  fun g1 g2 g3 => words_no_gt wid g1 g2 g3 y (List.mem_of_getElem? hq)⟩
           · obtain ⟨a, b, d, e, g⟩ := hrest h
             exact ⟨a, List.mem_cons_of_mem _ b, d, e, g⟩
       · obtain ⟨a, b, d, e, g⟩ := hrest h
@@ -116,6 +127,7 @@ structure NextFacts (c : List Nat) (off o m : Nat) : Prop where
   skipped : ∀ i, off ≤ i → i + mLen m < o → ∀ x, c[i]? = some x → x ≠ 125
   close : m = 1 → c[o - 1]? = some 125
   word : 2 ≤ m → ∀ i, o ≤ i + mLen m → i < o → ∀ x, c[i]? = some x → x ≠ 125
+  nogt : 2 ≤ m → m ≠ 8 → m ≠ 10 → ∀ i, o ≤ i + mLen m → i < o → ∀ x, c[i]? = some x → x ≠ 62
 
 theorem group_lens (g : Nat) (hg : g = 0 ∨ g = 1) :
     ∀ i ∈ W1.groups[g]?.getD [], W1.wordLengths[i]?.getD 0 ≤ 5 ∧ 1 ≤ i ∧ i ≤ 10 ∧
@@ -131,7 +143,7 @@ theorem nextF_facts (c : List Nat) (hn : c.length + 16 < 4294967296) : ∀ (f of
     simp only [nextF, Except.ok.injEq, Prod.mk.injEq] at h
     obtain ⟨h1, h2⟩ := h; subst h1 h2
     exact ⟨hoff, by omega, by simp [mLen], by intro i h1 h2; simp [mLen] at h2; omega, (by intro h; cases h),
-      by intro h; omega⟩
+      (by intro h; omega), (by intro h; omega)⟩
   | succ f ih =>
     intro off o m hoff h
     simp only [nextF] at h
@@ -140,7 +152,7 @@ theorem nextF_facts (c : List Nat) (hn : c.length + 16 < 4294967296) : ∀ (f of
       have hskip : ∀ (hne : c[off] ≠ 125), nextF c f (off + 1) = .ok (o, m) → NextFacts c off o m := by
         intro hne hh
         have r := ih (off + 1) o m (by omega) hh
-        refine ⟨r.le, r.id, by have := r.start; omega, ?_, r.close, r.word⟩
+        refine ⟨r.le, r.id, by have := r.start; omega, ?_, r.close, r.word, r.nogt⟩
         intro i h1 h2 x hx
         by_cases hi : i = off
         · subst hi
@@ -174,21 +186,33 @@ theorem nextF_facts (c : List Nat) (hn : c.length + 16 < 4294967296) : ∀ (f of
             obtain ⟨_, g1, g2, g3⟩ := hgl (m' - 1) b
             have hm1 : m' - 1 + 1 = m' := by omega
             rw [hm1] at g3
-            refine ⟨e, by omega, by omega, ?_, by intro h1; omega, ?_⟩
+            have hch62 : c[off] ≠ 62 := by
+              intro h62
+              rw [h62] at hfc
+              revert hfc; decide
+            refine ⟨e, by omega, by omega, ?_, (by intro h1; omega), ?_, ?_⟩
             · intro i h1 h2; omega
             · intro _ i h1 h2 x hx
               by_cases hi : i = off
               · subst hi
                 rw [List.getElem?_eq_getElem hlt] at hx
                 cases hx; exact hch
-              · obtain ⟨y, hy, hy125⟩ := g i (by omega) h2
+              · obtain ⟨y, hy, hy125, _⟩ := g i (by omega) h2
                 rw [hy] at hx; cases hx; exact hy125
+            · intro _ hn8 hn10 i h1 h2 x hx
+              by_cases hi : i = off
+              · subst hi
+                rw [List.getElem?_eq_getElem hlt] at hx
+                cases hx; exact hch62
+              · obtain ⟨y, hy, _, hy62⟩ := g i (by omega) h2
+                rw [hy] at hx; cases hx
+                exact hy62 (by omega) (by omega) (by omega)
       · simp only [hid, if_false] at h
         by_cases hsc : c[off] = W1.singleChar
         · simp only [hsc, if_true] at h
           simp only [Except.ok.injEq, Prod.mk.injEq] at h
           obtain ⟨h1, h2⟩ := h; subst h1 h2
-          refine ⟨by omega, by omega, by simp [mLen], ?_, ?_, by intro h; omega⟩
+          refine ⟨by omega, by omega, by simp [mLen], ?_, ?_, (by intro h; omega), (by intro h; omega)⟩
           · intro i h1 h2; simp [mLen] at h2; omega
           · intro _
             simp only [Nat.add_sub_cancel]
@@ -198,7 +222,7 @@ theorem nextF_facts (c : List Nat) (hn : c.length + 16 < 4294967296) : ∀ (f of
     · simp only [hlt, if_false, Except.ok.injEq, Prod.mk.injEq] at h
       obtain ⟨h1, h2⟩ := h; subst h1 h2
       exact ⟨hoff, by omega, by simp [mLen], by intro i h1 h2; simp [mLen] at h2; omega, (by intro h; cases h),
-        by intro h; omega⟩
+        (by intro h; omega), (by intro h; omega)⟩
 
 theorem next_facts (c : List Nat) (hn : c.length + 16 < 4294967296) (off o m : Nat)
     (hoff : off ≤ c.length) (h : next c off = .ok (o, m)) : NextFacts c off o m :=
